@@ -818,4 +818,403 @@ theorem updA_row_sum (K : Nat) (gammas : List Vec) (xis : List (List Vec))
 end upd
 
 
+/-! ## the tiling in index terms -/
+
+theorem contig_cover : ∀ (R : List Run) (a n : Nat), Contig a n R → ∀ i, a ≤ i → i < n →
+    ∃ r ∈ R, r.start ≤ i ∧ i < r.stop
+  | [], a, n, h, i, h1, h2 => by simp only [Contig] at h; omega
+  | r :: R, a, n, h, i, h1, h2 => by
+    simp only [Contig] at h
+    by_cases hi : i < r.stop
+    · exact ⟨r, by simp, by omega, hi⟩
+    · obtain ⟨r', hr', h'⟩ := contig_cover R r.stop n h.2.2 i (by omega) h2
+      exact ⟨r', by simp [hr'], h'⟩
+
+theorem contig_pairwise : ∀ (R : List Run) (a n : Nat), Contig a n R →
+    R.Pairwise (fun r r' => r.stop ≤ r'.start)
+  | [], _, _, _ => List.Pairwise.nil
+  | r :: R, a, n, h => by
+    simp only [Contig] at h
+    refine List.Pairwise.cons ?_ (contig_pairwise R _ _ h.2.2)
+    intro r' hr'
+    exact (contig_mem R _ _ h.2.2 r' hr').1
+
+theorem contig_constant : ∀ (R : List Run) (a n : Nat), Contig a n R →
+    ∀ r ∈ R, ∀ i, r.start ≤ i → i < r.stop → (expand R)[i - a]? = some r.state
+  | [], _, _, _, r, hr, _, _, _ => by simp at hr
+  | r0 :: R, a, n, h, r, hr, i, h1, h2 => by
+    simp only [Contig] at h
+    simp only [expand, List.flatMap_cons]
+    simp only [List.mem_cons] at hr
+    rcases hr with rfl | hr
+    · rw [List.getElem?_append_left (by simp; omega)]
+      simp [List.getElem?_replicate]; omega
+    · have hm := contig_mem R _ _ h.2.2 r hr
+      rw [List.getElem?_append_right (by simp; omega)]
+      have := contig_constant R r0.stop n h.2.2 r hr i h1 h2
+      simp only [expand] at this
+      rw [← this]
+      congr 1
+      simp; omega
+
+
+/-! ## exactness of the posteriors: prefix × suffix decomposition of the path sum -/
+section exact
+open Finset
+
+/-- sum over the continuations `q` from state `prev` with `q[t] = i`, nested-sum form -/
+def wPin (K : Nat) (A : Nat → Nat → Rat) (i : Nat) : Nat → Nat → List Vec → Rat
+  | _, _, [] => 0
+  | 0, prev, b :: bs => A prev i * atR b i * sufSum K A i bs
+  | t + 1, prev, b :: bs => sumK K (fun j => A prev j * atR b j * wPin K A i t j bs)
+
+theorem sumK_ite (K : Nat) (i : Nat) (hi : i < K) (f : Nat → Rat) :
+    sumK K (fun j => if j = i then f j else 0) = f i := by
+  rw [sumK_eq, Finset.sum_ite_eq' (range K) i f]; simp [hi]
+
+theorem filter_cons_zero (L : List (List Nat)) (j i : Nat) :
+    (L.map (j :: ·)).filter (fun q => q[0]? = some i) = if j = i then L.map (j :: ·) else [] := by
+  by_cases h : j = i <;> simp [List.filter_map, Function.comp_def, h]
+
+theorem filter_cons_succ (L : List (List Nat)) (j i t : Nat) :
+    (L.map (j :: ·)).filter (fun q => q[t + 1]? = some i)
+      = (L.filter (fun q => q[t]? = some i)).map (j :: ·) := by
+  simp [List.filter_map, Function.comp_def]
+
+theorem wPin_paths (K : Nat) (A : Nat → Nat → Rat) (i : Nat) (hi : i < K) :
+    ∀ (bs : List Vec) (t prev : Nat),
+    wPin K A i t prev bs
+      = (((allPaths K bs.length).filter (fun q => q[t]? = some i)).map (wFrom A prev bs)).sum
+  | [], t, prev => by simp [wPin, allPaths]
+  | b :: bs, 0, prev => by
+    simp only [wPin, List.length_cons, allPaths, List.filter_flatMap, sum_map_flatMap, filter_cons_zero]
+    rw [← sumK_ite K i hi (fun _ => A prev i * atR b i * sufSum K A i bs)]
+    unfold sumK
+    congr 1
+    apply List.map_congr_left
+    intro j _
+    by_cases hj : j = i
+    · subst hj
+      simp only [if_true, List.map_map]
+      rw [sufSum_paths, ← sum_map_mul_left]; rfl
+    · simp [hj]
+  | b :: bs, t + 1, prev => by
+    simp only [wPin, List.length_cons, allPaths, List.filter_flatMap, sum_map_flatMap, filter_cons_succ,
+      sumK]
+    congr 1
+    apply List.map_congr_left
+    intro j _
+    rw [wPin_paths K A i hi bs t j, ← sum_map_mul_left, List.map_map]
+    rfl
+
+
+/-- `β̂_t(i) · Π_{u>t} c_u` is the sum over all continuations from state `i`. -/
+theorem beta_suffix (K : Nat) (A : Nat → Nat → Rat) : ∀ (bs : List Vec) (s : Step),
+    (∀ s' ∈ fwdFrom K A s.alpha bs, s'.c ≠ 0) → ∀ i, i < K →
+    atR (smooth K A s (fwdFrom K A s.alpha bs)).1 i * prodL ((fwdFrom K A s.alpha bs).map (·.c))
+      = sufSum K A i bs
+  | [], s, _, i, hi => by simp [fwdFrom, smooth, prodL, sufSum, atR_tab _ _ _ hi]
+  | b :: bs, s, hc, i, hi => by
+    simp only [fwdFrom] at hc ⊢
+    have hc' : (fwdStep K A s.alpha b).c ≠ 0 := hc _ (by simp)
+    have ih := beta_suffix K A bs (fwdStep K A s.alpha b) (fun x hx => hc x (by simp [hx]))
+    simp only [smooth, List.map_cons, prodL, sufSum, backStep]
+    rw [atR_tab _ _ _ hi, sumK_eq, sumK_eq, fwdStep_b, div_mul_eq_mul_div, mul_comm (fwdStep K A s.alpha b).c,
+      ← mul_assoc, mul_div_assoc, div_self hc', mul_one, Finset.sum_mul]
+    apply Finset.sum_congr rfl
+    intro j hj
+    rw [← ih j (Finset.mem_range.mp hj)]; ring
+
+/-- the `γ` rows belonging to the steps `fwdFrom K A prev bs` -/
+def chainGammas (K : Nat) (A : Nat → Nat → Rat) (prev : Vec) (bs : List Vec) : List Vec :=
+  match fwdFrom K A prev bs with
+  | [] => []
+  | s' :: rest => (smooth K A s' rest).2.1
+
+theorem smooth_gammas_cons (K : Nat) (A : Nat → Nat → Rat) (s : Step) (bs : List Vec) :
+    (smooth K A s (fwdFrom K A s.alpha bs)).2.1
+      = had K s.alpha (smooth K A s (fwdFrom K A s.alpha bs)).1 :: chainGammas K A s.alpha bs := by
+  cases bs with
+  | nil => simp [fwdFrom, smooth, chainGammas]
+  | cons b r => simp [fwdFrom, smooth, chainGammas]
+
+theorem chain_gamma_exact (K : Nat) (A : Nat → Nat → Rat) (i : Nat) (hi : i < K) :
+    ∀ (bs : List Vec) (prev : Vec) (t : Nat), t < bs.length →
+    (∀ s' ∈ fwdFrom K A prev bs, s'.c ≠ 0) →
+    sumK K (fun p => atR prev p * wPin K A i t p bs)
+      = atR ((chainGammas K A prev bs).getD t []) i * prodL ((fwdFrom K A prev bs).map (·.c))
+  | [], _, _, ht, _ => by simp at ht
+  | b :: bs, prev, t, ht, hc => by
+    simp only [fwdFrom] at hc
+    have hc' : (fwdStep K A prev b).c ≠ 0 := hc _ (by simp)
+    have hrest : ∀ s' ∈ fwdFrom K A (fwdStep K A prev b).alpha bs, s'.c ≠ 0 := fun x hx => hc x (by simp [hx])
+    have hcg : chainGammas K A prev (b :: bs)
+        = had K (fwdStep K A prev b).alpha (smooth K A (fwdStep K A prev b)
+            (fwdFrom K A (fwdStep K A prev b).alpha bs)).1 :: chainGammas K A (fwdStep K A prev b).alpha bs := by
+      simp only [chainGammas, fwdFrom]
+      exact smooth_gammas_cons K A (fwdStep K A prev b) bs
+    rw [hcg]
+    simp only [fwdFrom, List.map_cons, prodL]
+    have hmul := fun j (hj : j < K) => fwdStep_mul K A prev b hc' j hj
+    cases t with
+    | zero =>
+      simp only [wPin, List.getD_cons_zero, had]
+      rw [atR_tab _ _ _ hi]
+      have e := beta_suffix K A bs (fwdStep K A prev b) hrest i hi
+      have h1 := hmul i hi
+      rw [sumK_eq] at h1
+      rw [sumK_eq]
+      calc ∑ p ∈ range K, atR prev p * (A p i * atR b i * sufSum K A i bs)
+          = (∑ p ∈ range K, atR prev p * A p i) * atR b i * sufSum K A i bs := by
+            rw [Finset.sum_mul, Finset.sum_mul]; apply Finset.sum_congr rfl; intro p _; ring
+        _ = _ := by rw [← h1, ← e]; ring
+    | succ t =>
+      simp only [wPin, List.getD_cons_succ]
+      have ih := chain_gamma_exact K A i hi bs (fwdStep K A prev b).alpha t (by simpa using ht) hrest
+      rw [← mul_assoc, mul_comm _ (fwdStep K A prev b).c, mul_assoc, ← ih]
+      rw [sumK_eq, sumK_eq, Finset.mul_sum]
+      have e1 : ∀ p ∈ range K, atR prev p * sumK K (fun j => A p j * atR b j * wPin K A i t j bs)
+          = ∑ j ∈ range K, atR prev p * A p j * atR b j * wPin K A i t j bs := by
+        intro p _; rw [sumK_eq, Finset.mul_sum]; apply Finset.sum_congr rfl; intro j _; ring
+      rw [Finset.sum_congr rfl e1, Finset.sum_comm]
+      apply Finset.sum_congr rfl
+      intro j hj
+      have h1 := hmul j (Finset.mem_range.mp hj)
+      rw [sumK_eq] at h1
+      calc ∑ p ∈ range K, atR prev p * A p j * atR b j * wPin K A i t j bs
+          = (∑ p ∈ range K, atR prev p * A p j) * atR b j * wPin K A i t j bs := by
+            rw [Finset.sum_mul, Finset.sum_mul]
+        _ = _ := by rw [← h1]; ring
+
+
+theorem gamma_exact_aux (K : Nat) (pi : Nat → Rat) (A : Nat → Nat → Rat) (b0 : Vec) (bs : List Vec)
+    (hc0 : (initStep K pi b0).c ≠ 0)
+    (hc : ∀ s' ∈ fwdFrom K A (initStep K pi b0).alpha bs, s'.c ≠ 0)
+    (t : Nat) (ht : t < (b0 :: bs).length) (i : Nat) (hi : i < K) :
+    atR ((smooth K A (initStep K pi b0) (fwdFrom K A (initStep K pi b0).alpha bs)).2.1.getD t []) i
+      * prodL (((initStep K pi b0) :: fwdFrom K A (initStep K pi b0).alpha bs).map (·.c))
+      = pinnedSpec K pi A (b0 :: bs) t i := by
+  rw [smooth_gammas_cons]
+  simp only [List.map_cons, prodL, pinnedSpec, List.length_cons, allPaths, List.filter_flatMap,
+    sum_map_flatMap]
+  have hmul : ∀ j, j < K → atR (initStep K pi b0).alpha j * (initStep K pi b0).c = pi j * atR b0 j := by
+    intro j hj
+    have := normStep_mul K _ b0 hc0 j hj
+    rw [atR_tab _ _ _ hj] at this
+    exact this
+  cases t with
+  | zero =>
+    simp only [List.getD_cons_zero, had, filter_cons_zero]
+    rw [atR_tab _ _ _ hi]
+    have e := beta_suffix K A bs (initStep K pi b0) hc i hi
+    have lhs : atR (initStep K pi b0).alpha i
+        * atR (smooth K A (initStep K pi b0) (fwdFrom K A (initStep K pi b0).alpha bs)).1 i
+        * ((initStep K pi b0).c * prodL (List.map (fun x => x.c) (fwdFrom K A (initStep K pi b0).alpha bs)))
+        = pi i * atR b0 i * sufSum K A i bs := by
+      rw [← e, ← hmul i hi]; ring
+    rw [lhs, ← sumK_ite K i hi (fun _ => pi i * atR b0 i * sufSum K A i bs)]
+    unfold sumK
+    congr 1
+    apply List.map_congr_left
+    intro j _
+    by_cases hj : j = i
+    · subst hj
+      simp only [if_true, List.map_map]
+      rw [sufSum_paths, ← sum_map_mul_left]; rfl
+    · simp [hj]
+  | succ t =>
+    simp only [List.getD_cons_succ, filter_cons_succ]
+    have ih := chain_gamma_exact K A i hi bs (initStep K pi b0).alpha t (by simpa using ht) hc
+    rw [← mul_assoc, mul_comm _ (initStep K pi b0).c, mul_assoc, ← ih, sumK_eq, Finset.mul_sum, ← sumK_eq]
+    unfold sumK
+    congr 1
+    apply List.map_congr_left
+    intro j hj
+    have hj : j < K := by simpa using hj
+    rw [List.map_map, wPin_paths K A i hi bs t j, ← mul_assoc, mul_comm (initStep K pi b0).c, hmul j hj,
+      ← sum_map_mul_left]
+    rfl
+
+
+/-! ### ξ -/
+
+/-- sum over the continuations `q` from `prev` with `q[t] = i` and `q[t+1] = j`, nested-sum form -/
+def wPin2 (K : Nat) (A : Nat → Nat → Rat) (i j : Nat) : Nat → Nat → List Vec → Rat
+  | _, _, [] => 0
+  | 0, prev, b :: bs => A prev i * atR b i * wPin K A j 0 i bs
+  | t + 1, prev, b :: bs => sumK K (fun k => A prev k * atR b k * wPin2 K A i j t k bs)
+
+theorem filter_cons_zero2 (L : List (List Nat)) (k i j : Nat) :
+    (L.map (k :: ·)).filter (fun q => q[0]? = some i ∧ q[1]? = some j)
+      = if k = i then (L.filter (fun q => q[0]? = some j)).map (k :: ·) else [] := by
+  by_cases h : k = i <;> simp [List.filter_map, Function.comp_def, h]
+
+theorem filter_cons_succ2 (L : List (List Nat)) (k i j t : Nat) :
+    (L.map (k :: ·)).filter (fun q => q[t + 1]? = some i ∧ q[t + 1 + 1]? = some j)
+      = (L.filter (fun q => q[t]? = some i ∧ q[t + 1]? = some j)).map (k :: ·) := by
+  simp [List.filter_map, Function.comp_def]
+
+theorem wPin2_paths (K : Nat) (A : Nat → Nat → Rat) (i j : Nat) (hi : i < K) (hj : j < K) :
+    ∀ (bs : List Vec) (t prev : Nat),
+    wPin2 K A i j t prev bs
+      = (((allPaths K bs.length).filter (fun q => q[t]? = some i ∧ q[t + 1]? = some j)).map
+          (wFrom A prev bs)).sum
+  | [], t, prev => by simp [wPin2, allPaths]
+  | b :: bs, 0, prev => by
+    simp only [wPin2, List.length_cons, allPaths, List.filter_flatMap, sum_map_flatMap, filter_cons_zero2,
+      Nat.zero_add]
+    rw [← sumK_ite K i hi (fun _ => A prev i * atR b i * wPin K A j 0 i bs)]
+    unfold sumK
+    congr 1
+    apply List.map_congr_left
+    intro k _
+    by_cases hk : k = i
+    · subst hk
+      simp only [if_true, List.map_map]
+      rw [wPin_paths K A j hj bs 0 k, ← sum_map_mul_left]; rfl
+    · simp [hk]
+  | b :: bs, t + 1, prev => by
+    simp only [wPin2, List.length_cons, allPaths, List.filter_flatMap, sum_map_flatMap, filter_cons_succ2,
+      sumK]
+    congr 1
+    apply List.map_congr_left
+    intro k _
+    rw [wPin2_paths K A i j hi hj bs t k, ← sum_map_mul_left, List.map_map]
+    rfl
+
+/-- the `ξ` matrices belonging to the steps `fwdFrom K A prev bs` -/
+def chainXis (K : Nat) (A : Nat → Nat → Rat) (prev : Vec) (bs : List Vec) : List (List Vec) :=
+  match fwdFrom K A prev bs with
+  | [] => []
+  | s' :: rest => (smooth K A s' rest).2.2
+
+theorem smooth_xis_cons (K : Nat) (A : Nat → Nat → Rat) (s : Step) (b : Vec) (bs : List Vec) :
+    (smooth K A s (fwdFrom K A s.alpha (b :: bs))).2.2
+      = xiOf K A s.alpha (fwdStep K A s.alpha b)
+          (smooth K A (fwdStep K A s.alpha b) (fwdFrom K A (fwdStep K A s.alpha b).alpha bs)).1
+        :: chainXis K A s.alpha (b :: bs) := by
+  simp [fwdFrom, smooth, chainXis]
+
+theorem atR_xiOf (K : Nat) (A : Nat → Nat → Rat) (al : Vec) (s' : Step) (nb : Vec) (i j : Nat)
+    (hi : i < K) (hj : j < K) :
+    atR ((xiOf K A al s' nb).getD i []) j = atR al i * A i j * atR s'.b j * atR nb j / s'.c := by
+  simp only [xiOf]; rw [getD_tab _ _ _ _ hi, atR_tab _ _ _ hj]
+
+theorem chain_xi_exact (K : Nat) (A : Nat → Nat → Rat) (i j : Nat) (hi : i < K) (hj : j < K) :
+    ∀ (bs : List Vec) (prev : Vec) (t : Nat), t + 1 < bs.length →
+    (∀ s' ∈ fwdFrom K A prev bs, s'.c ≠ 0) →
+    sumK K (fun p => atR prev p * wPin2 K A i j t p bs)
+      = atR (((chainXis K A prev bs).getD t []).getD i []) j * prodL ((fwdFrom K A prev bs).map (·.c))
+  | [], _, _, ht, _ => by simp at ht
+  | [_], _, _, ht, _ => by simp at ht
+  | b :: b2 :: r2, prev, t, ht, hc => by
+    simp only [fwdFrom] at hc
+    have hc' : (fwdStep K A prev b).c ≠ 0 := hc _ (by simp)
+    have hrest : ∀ s' ∈ fwdFrom K A (fwdStep K A prev b).alpha (b2 :: r2), s'.c ≠ 0 :=
+      fun x hx => hc x (by simp only [fwdFrom] at hx; simp [hx])
+    have hcx : chainXis K A prev (b :: b2 :: r2)
+        = xiOf K A (fwdStep K A prev b).alpha (fwdStep K A (fwdStep K A prev b).alpha b2)
+            (smooth K A (fwdStep K A (fwdStep K A prev b).alpha b2)
+              (fwdFrom K A (fwdStep K A (fwdStep K A prev b).alpha b2).alpha r2)).1
+          :: chainXis K A (fwdStep K A prev b).alpha (b2 :: r2) := by
+      simp only [chainXis, fwdFrom, smooth]
+    rw [hcx]
+    have hmul := fun k (hk : k < K) => fwdStep_mul K A prev b hc' k hk
+    cases t with
+    | zero =>
+      simp only [wPin2, wPin, List.getD_cons_zero, fwdFrom, List.map_cons, prodL]
+      rw [atR_xiOf K A _ _ _ i j hi hj, fwdStep_b]
+      have hc2 : (fwdStep K A (fwdStep K A prev b).alpha b2).c ≠ 0 := hc _ (by simp)
+      have e := beta_suffix K A r2 (fwdStep K A (fwdStep K A prev b).alpha b2)
+        (fun x hx => hc x (by simp [hx])) j hj
+      have h1 := hmul i hi
+      rw [sumK_eq] at h1
+      rw [sumK_eq]
+      calc ∑ p ∈ range K, atR prev p * (A p i * atR b i * (A i j * atR b2 j * sufSum K A j r2))
+          = (∑ p ∈ range K, atR prev p * A p i) * atR b i * (A i j * atR b2 j * sufSum K A j r2) := by
+            rw [Finset.sum_mul, Finset.sum_mul]; apply Finset.sum_congr rfl; intro p _; ring
+        _ = _ := by rw [← h1, ← e]; field_simp
+    | succ t =>
+      simp only [wPin2, List.getD_cons_succ]
+      have ih := chain_xi_exact K A i j hi hj (b2 :: r2) (fwdStep K A prev b).alpha t (by simpa using ht) hrest
+      have hp : prodL ((fwdFrom K A prev (b :: b2 :: r2)).map (·.c))
+          = (fwdStep K A prev b).c * prodL ((fwdFrom K A (fwdStep K A prev b).alpha (b2 :: r2)).map (·.c)) := by
+        simp only [fwdFrom, List.map_cons, prodL]
+      rw [hp, ← mul_assoc, mul_comm _ (fwdStep K A prev b).c, mul_assoc, ← ih]
+      rw [sumK_eq, sumK_eq, Finset.mul_sum]
+      have e1 : ∀ p ∈ range K, atR prev p * sumK K (fun k => A p k * atR b k * wPin2 K A i j t k (b2 :: r2))
+          = ∑ k ∈ range K, atR prev p * A p k * atR b k * wPin2 K A i j t k (b2 :: r2) := by
+        intro p _; rw [sumK_eq, Finset.mul_sum]; apply Finset.sum_congr rfl; intro k _; ring
+      rw [Finset.sum_congr rfl e1, Finset.sum_comm]
+      apply Finset.sum_congr rfl
+      intro k hk
+      have h1 := hmul k (Finset.mem_range.mp hk)
+      rw [sumK_eq] at h1
+      calc ∑ p ∈ range K, atR prev p * A p k * atR b k * wPin2 K A i j t k (b2 :: r2)
+          = (∑ p ∈ range K, atR prev p * A p k) * atR b k * wPin2 K A i j t k (b2 :: r2) := by
+            rw [Finset.sum_mul, Finset.sum_mul]
+        _ = _ := by rw [← h1]; ring
+
+
+theorem xi_exact_aux (K : Nat) (pi : Nat → Rat) (A : Nat → Nat → Rat) (b0 : Vec) (bs : List Vec)
+    (hc0 : (initStep K pi b0).c ≠ 0)
+    (hc : ∀ s' ∈ fwdFrom K A (initStep K pi b0).alpha bs, s'.c ≠ 0)
+    (t : Nat) (ht : t + 1 < (b0 :: bs).length) (i j : Nat) (hi : i < K) (hj : j < K) :
+    atR (((smooth K A (initStep K pi b0) (fwdFrom K A (initStep K pi b0).alpha bs)).2.2.getD t []).getD i []) j
+      * prodL (((initStep K pi b0) :: fwdFrom K A (initStep K pi b0).alpha bs).map (·.c))
+      = pinned2Spec K pi A (b0 :: bs) t i j := by
+  cases bs with
+  | nil => simp at ht
+  | cons b1 r1 =>
+    rw [smooth_xis_cons]
+    simp only [List.map_cons, prodL, pinned2Spec, List.length_cons, allPaths, List.filter_flatMap,
+      sum_map_flatMap]
+    have hmul : ∀ k, k < K → atR (initStep K pi b0).alpha k * (initStep K pi b0).c = pi k * atR b0 k := by
+      intro k hk
+      have := normStep_mul K _ b0 hc0 k hk
+      rw [atR_tab _ _ _ hk] at this
+      exact this
+    cases t with
+    | zero =>
+      simp only [List.getD_cons_zero, filter_cons_zero2, Nat.zero_add]
+      rw [atR_xiOf K A _ _ _ i j hi hj, fwdStep_b]
+      simp only [fwdFrom] at hc
+      have hc1 : (fwdStep K A (initStep K pi b0).alpha b1).c ≠ 0 := hc _ (by simp)
+      have e := beta_suffix K A r1 (fwdStep K A (initStep K pi b0).alpha b1)
+        (fun x hx => hc x (by simp [hx])) j hj
+      have lhs : atR (initStep K pi b0).alpha i * A i j * atR b1 j
+          * atR (smooth K A (fwdStep K A (initStep K pi b0).alpha b1)
+              (fwdFrom K A (fwdStep K A (initStep K pi b0).alpha b1).alpha r1)).1 j
+          / (fwdStep K A (initStep K pi b0).alpha b1).c
+          * ((initStep K pi b0).c * prodL (List.map (fun x => x.c)
+              (fwdFrom K A (initStep K pi b0).alpha (b1 :: r1))))
+          = pi i * atR b0 i * wPin K A j 0 i (b1 :: r1) := by
+        simp only [fwdFrom, List.map_cons, prodL, wPin]
+        rw [← e, ← hmul i hi]; field_simp
+      rw [lhs, ← sumK_ite K i hi (fun _ => pi i * atR b0 i * wPin K A j 0 i (b1 :: r1))]
+      unfold sumK
+      congr 1
+      apply List.map_congr_left
+      intro k _
+      by_cases hk : k = i
+      · subst hk
+        simp only [if_true, List.map_map]
+        rw [wPin_paths K A j hj (b1 :: r1) 0 k, ← sum_map_mul_left]; rfl
+      · simp [hk]
+    | succ t =>
+      simp only [List.getD_cons_succ, filter_cons_succ2]
+      have ih := chain_xi_exact K A i j hi hj (b1 :: r1) (initStep K pi b0).alpha t (by simpa using ht) hc
+      rw [← mul_assoc, mul_comm _ (initStep K pi b0).c, mul_assoc, ← ih, sumK_eq, Finset.mul_sum, ← sumK_eq]
+      unfold sumK
+      congr 1
+      apply List.map_congr_left
+      intro k hk
+      have hk : k < K := by simpa using hk
+      rw [List.map_map, wPin2_paths K A i j hi hj (b1 :: r1) t k, ← mul_assoc, mul_comm (initStep K pi b0).c,
+        hmul k hk, ← sum_map_mul_left]
+      rfl
+
+
+end exact
+
 end Verif.C16
